@@ -930,6 +930,35 @@ fn sub_modules(input: &[u8], st: &mut Stats) -> R {
     let ntypes = b.types.len();
     let ncomp = b.m.types_global_values.iter().filter(|i| i.class.opname == "ConstantComposite").count();
     let built = Built { m: b.m, lifted, nphi, nblocks };
+    // lifting is a pure function of the module: now and then a BROKEN variant of this module
+    // (a later block without its terminator, an emptied block, a missing header) is lifted on
+    // this thread first; whatever that yields - an error, or a panic of one of the lifter's own
+    // assertions, neither is part of the statement - the lift of the intact module must be
+    // unaffected
+    if cs.below(6) == 0 {
+        let mut broken = built.m.clone();
+        let mut what = "header removed";
+        let mut done = false;
+        for f in broken.functions.iter_mut().rev() {
+            if f.blocks.len() >= 2 {
+                let last = f.blocks.len() - 1;
+                if cs.bool() {
+                    f.blocks[last].instructions.pop();
+                    what = "last block lost its terminator";
+                } else {
+                    f.blocks[last].instructions.clear();
+                    what = "last block emptied";
+                }
+                done = true;
+                break;
+            }
+        }
+        if !done {
+            broken.header = None;
+        }
+        let r = crate::engine::catch(|| rspirv::lift::LiftContext::convert(&broken).is_ok());
+        st.count(&format!("broken_variant_lifted_first:{}:{}", what, match r { Ok(true) => "ok", Ok(false) => "err", Err(_) => "panic" }));
+    }
     check_lift(&built, st)?;
     if ntypes >= 4 && ncomp >= 1 && built.nblocks.iter().any(|n| *n >= 2) && built.nphi >= 1 && built.lifted.len() >= 4 {
         st.nontrivial(hash_str(&built.m.all_inst_iter().map(show_inst).collect::<Vec<_>>().join(";")));
